@@ -209,6 +209,17 @@ CHECKS["C15"] = dict(
          "(any true log slice is accepted), timers are not modelled (a tick is classified by its effect).",
 )
 
+CHECKS["C04"] = dict(
+    category="proof", design_ref="DESIGN.md §6 C04", engine="exec (enumeration, hook H2)",
+    technique="Lean 4: total executable model of every registered command (fact F1 regenerated from the source and closed by decide) + bounded-exhaustive enumeration of the property's quantifier through the real executors against that model, with lock-balance check of every trace",
+    text="Every command of the model is a total Lean function, so the model cannot crash or hang on any input; Exec.all_registered_modelled is re-proved on "
+         "every run against the command list extracted from the Go source, so a newly registered command must be modelled. The implementation is compared "
+         "with the model on every registered command x arity 0-2 exhaustively over an adversarial alphabet and keys of every type (arities 3-6 sampled): "
+         "panics (recovered by the harness), non-returning executors (watchdog), nil replies, wrong replies, corrupted state and unbalanced locks are all "
+         "mismatches; each program then checks that old and new keys still answer.",
+    note="Partial: the Go executors' panic-freedom rests on the enumeration, not on a theorem about Go code; process liveness over TCP is runtime. Trusted: Lean kernel, harness recover()/watchdog, hook H2.",
+)
+
 NOT_YET = "check not built yet in this round; see DESIGN.md §8"
 NOT_APPLICABLE = {}
 
